@@ -299,7 +299,7 @@ class Oracle:
         if lost or orph:
             self.flag("C16:backup-dropped-before-wait",
                       f"the block of this run ended without exception but the run did not complete ({how}); jobs {lost} of the "
-                      f"last plan whose run completed are in neither jobs/ nor jobs.bak/ (jobs.bak = "
+                      f"last plan whose run completed (or linked by aborted runs since) are in neither jobs/ nor jobs.bak/ (jobs.bak = "
                       f"{'absent' if snap['bak'] is None else names(snap['bak'])}); orphans reports {orph}", i)
 
     def raised_keeps(self, pre, snap, i, how):
